@@ -36,7 +36,7 @@ func doMC(maxN int) string {
 }
 
 func checkC20(c *core.Ctx) error {
-	p := &plan{prop: "C20", procs: 16, logRuns: 40, logLines: 700}
+	p := &plan{prop: "C20", procs: nprocs(), logRuns: 40, logLines: 700}
 	maxN := 4
 	p.cfgs = doCfgs(2, maxN)
 	p.mc = []mcRun{{name: fmt.Sprintf("do: 2..%d functions x every failing subset x rendezvous on/off", maxN), cfgText: doMC(maxN), workers: 4}}
